@@ -219,7 +219,7 @@ def make_bank(rng, fmt, decorated, sep, quick=True, unispace=True, big=False):
         # hostile strings every format can carry: square / curly brackets in
         # categories, Python literals as words, morphology or lemma, keyword
         # tags (before the labels are decorated below)
-        gen.spice(rng, t, ['cat-square-bracket', 'word-python-literal',
+        gen.spice(rng, t, ['word-backslash', 'cat-square-bracket', 'word-python-literal',
                            'morph-python-literal', 'pos-keyword',
                            'cat-keyword', 'word-keyword', 'word-percent'],
                   p=0.15)
